@@ -102,6 +102,8 @@ def check_events(world, res, win, final=True):
     spawns, reaps, kills = {}, {}, {}
     order = {}
     for i, (t, wname, topic, p) in enumerate(evs):
+        if wname != 'a':
+            continue
         pid = p.get('process_pid')
         if topic == 'spawn':
             spawns.setdefault(pid, []).append(i)
@@ -162,6 +164,13 @@ def check_events(world, res, win, final=True):
             res.check('C09.exit_code', code == exp,
                       lambda: 'reap event of %d carries exit_code=%r, wait status %d means %d (reaped by %s; after %s)'
                       % (pid - PID_BASE, code, wst, exp, p.reaped_by, ev_lab), where=site)
+    # the bystander watcher z: one spawn event, nothing else about its worker
+    zp = [p for p in k.spawn_log if p.watcher == 'z']
+    zev = [(topic, p.get('process_pid')) for (t, wname, topic, p) in evs if wname == 'z' and topic in ('spawn', 'reap', 'kill')]
+    if zp:
+        res.check('C09.bystander_events', zev == [('spawn', zp[0].pid)] and len(zp) == 1,
+                  lambda: 'events about bystander watcher z: %s (its only worker is %d), after %s' % (zev, zp[0].pid, ev_lab),
+                  where='watcher.notify_event', nontrivial=bool(ev_lab))
     # start/stop events agree with status
     last = None
     for (t, wname, topic, p) in evs:
@@ -194,8 +203,10 @@ def run(scn, ch):
     tier = scn.tier
 
     def make_world(ch):
-        world = World(ch, [WSpec('a', numprocesses=scn.n0, graceful_timeout=G, behaviours=pattern(scn.pat))],
+        world = World(ch, [WSpec('a', numprocesses=scn.n0, graceful_timeout=G, behaviours=pattern(scn.pat)),
+                           WSpec('z', numprocesses=1, graceful_timeout=G)],
                       check_delay=scn.p.get('tick', 1.0))
+        world.deaths_only = ('a',)
         _world_with_death_ctx(world)
         return world
 
